@@ -2,54 +2,46 @@
 static int bad; static void fail(const char *what){ printf("MISMATCH %s\n", what); bad++; }
 extern int lfunc_0(void); extern void *addr_lfunc_0(void); extern void *l1_addr_lfunc_0(void); int (*volatile fp_lfunc_0)(void) = lfunc_0;
 extern int ldata_1[]; extern const void *addr_ldata_1(void); extern const void *l1_addr_ldata_1(void); extern int read_ldata_1(void); extern int l1_read_ldata_1(void); int *volatile dp_ldata_1 = ldata_1;
-extern int lifunc_2(void); extern void *addr_lifunc_2(void); int (*volatile fp_lifunc_2)(void) = lifunc_2;
-extern int lfunc_3(void); extern void *addr_lfunc_3(void); extern void *l1_addr_lfunc_3(void); int (*volatile fp_lfunc_3)(void) = lfunc_3;
-extern int lfunc_4(void); extern void *addr_lfunc_4(void); extern void *l1_addr_lfunc_4(void); int (*volatile fp_lfunc_4)(void) = lfunc_4;
-extern int ldata_5[]; extern const void *addr_ldata_5(void); extern const void *l1_addr_ldata_5(void); extern int read_ldata_5(void); extern int l1_read_ldata_5(void); int *volatile dp_ldata_5 = ldata_5;
-int efunc_6(void){ return 41; } extern void *l1_addr_efunc_6(void); extern int l1_call_efunc_6(void);
-static int impl_eifunc_7(void){ return 55; } static void *res_eifunc_7(void){ return (void*)impl_eifunc_7; } int eifunc_7(void) __attribute__((ifunc("res_eifunc_7"))); extern void *l1_addr_eifunc_7(void); extern int l1_call_eifunc_7(void); int (*volatile fp_eifunc_7)(void) = eifunc_7;
-extern int lalias_sw_8[]; extern void *addr_lalias_sw_8(void); extern void *waddr_lalias_sw_8(void); extern int read_lalias_sw_8(void); extern void write_lalias_sw_8(int);
-extern int t_lalias_ts_9; extern void *addr_lalias_ts_9(void); extern void *waddr_lalias_ts_9(void); extern int read_lalias_ts_9(void); extern void write_lalias_ts_9(int);
+int edata_2[2] = { 134 }; extern void *l1_addr_edata_2(void); extern int l1_read_edata_2(void);
+extern int lifunc_3(void); extern void *addr_lifunc_3(void); int (*volatile fp_lifunc_3)(void) = lifunc_3;
+extern const int ldata_ro_4[]; extern const void *addr_ldata_ro_4(void); extern const void *l1_addr_ldata_ro_4(void); extern int read_ldata_ro_4(void); extern int l1_read_ldata_ro_4(void); const int *volatile dp_ldata_ro_4 = ldata_ro_4;
+int efunc_5(void){ return 95; } extern void *l1_addr_efunc_5(void); extern int l1_call_efunc_5(void);
+static int impl_eifunc_6(void){ return 117; } static void *res_eifunc_6(void){ return (void*)impl_eifunc_6; } int eifunc_6(void) __attribute__((ifunc("res_eifunc_6"))); extern void *l1_addr_eifunc_6(void); extern int l1_call_eifunc_6(void); int (*volatile fp_eifunc_6)(void) = eifunc_6;
+extern int lalias_sw_7[]; extern void *addr_lalias_sw_7(void); extern void *waddr_lalias_sw_7(void); extern int read_lalias_sw_7(void); extern void write_lalias_sw_7(int);
+extern int t_lalias_ts_8[]; extern void *addr_lalias_ts_8(void); extern void *waddr_lalias_ts_8(void); extern int read_lalias_ts_8(void); extern void write_lalias_ts_8(int);
 int main(void){
     if ((void*)lfunc_0 != addr_lfunc_0()) fail("lfunc_0: exe vs defining library");
     if ((void*)lfunc_0 != l1_addr_lfunc_0()) fail("lfunc_0: exe vs lib1");
     if ((void*)fp_lfunc_0 != (void*)lfunc_0) fail("lfunc_0: data pointer vs code reference in exe");
-    if (fp_lfunc_0() != 99 || lfunc_0() != 99) fail("lfunc_0: call result");
+    if (fp_lfunc_0() != 130 || lfunc_0() != 130) fail("lfunc_0: call result");
     if ((const void*)ldata_1 != addr_ldata_1()) fail("ldata_1: exe vs defining library");
     if ((const void*)ldata_1 != l1_addr_ldata_1()) fail("ldata_1: exe vs lib1");
     if ((const void*)dp_ldata_1 != (const void*)ldata_1) fail("ldata_1: data pointer vs code reference in exe");
-    if (ldata_1[0] != 13 || read_ldata_1() != 13) fail("ldata_1: initial value");
-    ldata_1[0] = 1013; if (read_ldata_1() != 1013 || l1_read_ldata_1() != 1013) fail("ldata_1: write through exe not seen by library");
-    if ((void*)lifunc_2 != addr_lifunc_2()) fail("lifunc_2: library ifunc address exe vs library");
-    if ((void*)fp_lifunc_2 != (void*)lifunc_2) fail("lifunc_2: library ifunc address data vs code in exe");
-    if (lifunc_2() != 55 || fp_lifunc_2() != 55) fail("lifunc_2: ifunc call result");
-    if ((void*)lfunc_3 != addr_lfunc_3()) fail("lfunc_3: exe vs defining library");
-    if ((void*)lfunc_3 != l1_addr_lfunc_3()) fail("lfunc_3: exe vs lib1");
-    if ((void*)fp_lfunc_3 != (void*)lfunc_3) fail("lfunc_3: data pointer vs code reference in exe");
-    if (fp_lfunc_3() != 34 || lfunc_3() != 34) fail("lfunc_3: call result");
-    if ((void*)lfunc_4 != addr_lfunc_4()) fail("lfunc_4: exe vs defining library");
-    if ((void*)lfunc_4 != l1_addr_lfunc_4()) fail("lfunc_4: exe vs lib1");
-    if ((void*)fp_lfunc_4 != (void*)lfunc_4) fail("lfunc_4: data pointer vs code reference in exe");
-    if (fp_lfunc_4() != 21 || lfunc_4() != 21) fail("lfunc_4: call result");
-    if ((const void*)ldata_5 != addr_ldata_5()) fail("ldata_5: exe vs defining library");
-    if ((const void*)ldata_5 != l1_addr_ldata_5()) fail("ldata_5: exe vs lib1");
-    if ((const void*)dp_ldata_5 != (const void*)ldata_5) fail("ldata_5: data pointer vs code reference in exe");
-    if (ldata_5[0] != 187 || read_ldata_5() != 187) fail("ldata_5: initial value");
-    ldata_5[0] = 1187; if (read_ldata_5() != 1187 || l1_read_ldata_5() != 1187) fail("ldata_5: write through exe not seen by library");
-    if ((void*)efunc_6 != l1_addr_efunc_6()) fail("efunc_6: exe function seen from lib1");
-    if (l1_call_efunc_6() != 41) fail("efunc_6: call from lib1");
-    if ((void*)fp_eifunc_7 != (void*)eifunc_7) fail("eifunc_7: ifunc address in data vs code in exe");
+    if (ldata_1[0] != 21 || read_ldata_1() != 21) fail("ldata_1: initial value");
+    ldata_1[0] = 1021; if (read_ldata_1() != 1021 || l1_read_ldata_1() != 1021) fail("ldata_1: write through exe not seen by library");
+    if ((void*)edata_2 != l1_addr_edata_2()) fail("edata_2: exe data seen from lib1");
+    edata_2[0] = 139; if (l1_read_edata_2() != 139) fail("edata_2: write in exe not seen by lib1");
+    if ((void*)lifunc_3 != addr_lifunc_3()) fail("lifunc_3: library ifunc address exe vs library");
+    if ((void*)fp_lifunc_3 != (void*)lifunc_3) fail("lifunc_3: library ifunc address data vs code in exe");
+    if (lifunc_3() != 33 || fp_lifunc_3() != 33) fail("lifunc_3: ifunc call result");
+    if ((const void*)ldata_ro_4 != addr_ldata_ro_4()) fail("ldata_ro_4: exe vs defining library");
+    if ((const void*)ldata_ro_4 != l1_addr_ldata_ro_4()) fail("ldata_ro_4: exe vs lib1");
+    if ((const void*)dp_ldata_ro_4 != (const void*)ldata_ro_4) fail("ldata_ro_4: data pointer vs code reference in exe");
+    if (ldata_ro_4[0] != 181 || read_ldata_ro_4() != 181) fail("ldata_ro_4: initial value");
+    if ((void*)efunc_5 != l1_addr_efunc_5()) fail("efunc_5: exe function seen from lib1");
+    if (l1_call_efunc_5() != 95) fail("efunc_5: call from lib1");
+    if ((void*)fp_eifunc_6 != (void*)eifunc_6) fail("eifunc_6: ifunc address in data vs code in exe");
     
 #ifdef EIFUNC_FROM_LIB
-    if ((void*)eifunc_7 != l1_addr_eifunc_7()) fail("eifunc_7: exe ifunc address seen from lib1"); if (l1_call_eifunc_7() != 55) fail("eifunc_7: ifunc call from lib1");
+    if ((void*)eifunc_6 != l1_addr_eifunc_6()) fail("eifunc_6: exe ifunc address seen from lib1"); if (l1_call_eifunc_6() != 117) fail("eifunc_6: ifunc call from lib1");
 #endif
-    if (eifunc_7() != 55 || fp_eifunc_7() != 55) fail("eifunc_7: ifunc call result");
-    if ((void*)lalias_sw_8 != addr_lalias_sw_8() || (void*)lalias_sw_8 != waddr_lalias_sw_8()) fail("lalias_sw_8: symbol in exe vs its alias used by the library");
-    if (lalias_sw_8[0] != 0 || read_lalias_sw_8() != 0) fail("lalias_sw_8: initial value");
-    lalias_sw_8[0] = 1171; if (read_lalias_sw_8() != 1171) fail("lalias_sw_8: write in exe not seen by the library through the alias");
-    write_lalias_sw_8(178); if (lalias_sw_8[0] != 178) fail("lalias_sw_8: write by the library through the alias not seen in exe");
-    if ((void*)&t_lalias_ts_9 != addr_lalias_ts_9() || (void*)&t_lalias_ts_9 != waddr_lalias_ts_9()) fail("lalias_ts_9: symbol in exe vs its alias used by the library");
-    if (t_lalias_ts_9 != 182 || read_lalias_ts_9() != 182) fail("lalias_ts_9: initial value");
-    t_lalias_ts_9 = 1182; if (read_lalias_ts_9() != 1182) fail("lalias_ts_9: write in exe not seen by the library through the alias");
-    write_lalias_ts_9(189); if (t_lalias_ts_9 != 189) fail("lalias_ts_9: write by the library through the alias not seen in exe");
+    if (eifunc_6() != 117 || fp_eifunc_6() != 117) fail("eifunc_6: ifunc call result");
+    if ((void*)lalias_sw_7 != addr_lalias_sw_7() || (void*)lalias_sw_7 != waddr_lalias_sw_7()) fail("lalias_sw_7: symbol in exe vs its alias used by the library");
+    if (lalias_sw_7[0] != 0 || read_lalias_sw_7() != 0) fail("lalias_sw_7: initial value");
+    lalias_sw_7[0] = 1115; if (read_lalias_sw_7() != 1115) fail("lalias_sw_7: write in exe not seen by the library through the alias");
+    write_lalias_sw_7(122); if (lalias_sw_7[0] != 122) fail("lalias_sw_7: write by the library through the alias not seen in exe");
+    if ((void*)t_lalias_ts_8 != addr_lalias_ts_8() || (void*)t_lalias_ts_8 != waddr_lalias_ts_8()) fail("lalias_ts_8: symbol in exe vs its alias used by the library");
+    if (t_lalias_ts_8[0] != 0 || read_lalias_ts_8() != 0) fail("lalias_ts_8: initial value");
+    t_lalias_ts_8[0] = 1106; if (read_lalias_ts_8() != 1106) fail("lalias_ts_8: write in exe not seen by the library through the alias");
+    write_lalias_ts_8(113); if (t_lalias_ts_8[0] != 113) fail("lalias_ts_8: write by the library through the alias not seen in exe");
     if (!bad) printf("OK\n"); return bad ? 1 : 0; }
